@@ -106,7 +106,7 @@ class Snapshot:
                 os.makedirs(self.bin)
                 sh(["rsync", "-a", "--exclude", ".git", REPO + "/", self.src + "/"], check=True)
                 # harness + extractor sources live in /verif and are copied in (guard: //go:build verif)
-                for sub, dst in (("harness/verifh", "internal/verifh"), ("harness/verifx", "internal/verifx")):
+                for sub, dst in (("harness/verifh", "internal/verifh"), ("harness/verifx", "internal/verifx"), ("harness/verifsem", "tools/verifsem")):
                     s = os.path.join(VERIF, sub)
                     if os.path.isdir(s):
                         shutil.copytree(s, os.path.join(self.src, dst))
@@ -144,6 +144,8 @@ class Snapshot:
                 p = sh(["go", "build", "-o", out, "."], cwd=self.src, env=goenv())
             elif what == "tools":
                 p = sh(["go", "build", "-o", out, "."], cwd=os.path.join(self.src, "tools"), env=goenv())
+            elif what == "verifsem":
+                p = sh(["go", "build", "-tags", "verif", "-o", out, "./verifsem"], cwd=os.path.join(self.src, "tools"), env=goenv())
             else:
                 p = sh(["go", "build", "-tags", "verif", "-o", out, "./internal/" + what], cwd=self.src, env=goenv())
             if p.returncode != 0:
